@@ -32,12 +32,20 @@ def c01(run, tier):
         run.trace_validate(["-fam", "paths", "-n", str(Q(tier, 2500, 20000)), "-sub", str(i)], "paths%d" % i)
 
 
-def scale_family(run, fam, label):
+def scale_family(run, fam, label, race=False):
     """Trace_Scale.tla: regular documents far larger / deeper than TLC enumerates (sizes around powers of two); the trace
     specification knows the value of every query of the pool as a closed form in the size"""
     import os
     t = os.path.join(run.work, "scale.%s.ndjson" % fam)
-    p = run.harness_cmd(["scale-record", "-fam", fam, "-out", t], "scale-" + fam, timeout=1800)
+    env = {"GORACE": "halt_on_error=0 atexit_sleep_ms=0 exitcode=0"} if race else None
+    p = run.harness_cmd(["scale-record", "-fam", fam, "-out", t], "scale-" + fam, timeout=1800, race=race, env=env)
+    if race and "DATA RACE" in p.stderr:
+        keep = os.path.join(run.root, "replays", run.pid)
+        os.makedirs(keep, exist_ok=True)
+        dst = os.path.join(keep, "race-%s.txt" % fam)
+        open(dst, "w").write(p.stderr[-20000:])
+        run.violations.append({"aspect": "race", "fam": "scale." + fam, "text": "", "detail": "Go race detector: " + " | ".join(p.stderr.splitlines()[:8])[:400], "replay": dst})
+        run.viol_total = getattr(run, "viol_total", 0) + 1
     if p.returncode != 0:
         from infra import Infra
         raise Infra("scale-record failed: " + (p.stdout + p.stderr)[-800:])
@@ -304,6 +312,8 @@ def c14(run, tier):
     # a tree nested 20000 / 30000 levels deep walked by 32 / 48 goroutines at once (anything the evaluator sums up across
     # goroutines - depth guards, budgets - is hit here and nowhere else)
     scale_family(run, "deepconc", "deep-tree-concurrent")
+    # a freshly compiled expression whose FIRST executions overlap (nothing has warmed whatever it caches lazily), race-built
+    scale_family(run, "coldconc", "cold-expression-concurrent", race=True)
     import glob
     races = glob.glob(racelog + ".*")
     for rf in races[:5]:
